@@ -67,7 +67,7 @@ Lemma respond_out j k last maxre s : outgoing_requests (fst (respond send_messag
 Proof. unfold respond. destruct (find _ _) as [v|]; [|reflexivity].
   pose proof (send_message_out (Resp j k) (v_remote v) (if v_mtype v =? 1 then 7 else 8) 69 (v_tok v) maxre s) as H.
   destruct (send_message _ _ _ _ _ _ s) as [s1 o1]. cbn [fst] in H.
-  destruct last; destruct (alive k s1) eqn:E; cbn [fst]; try exact H. unfold stop_responder. rewrite E. exact H. Qed.
+  destruct last; [|exact H]. destruct (alive k s1) eqn:E; cbn [fst]; [|exact H]. unfold stop_responder. rewrite E. exact H. Qed.
 
 Theorem requests_to_other_remotes_untouched s e r : Inv s -> touches s e r = false -> (forall q, e <> Cancel q) ->
   reqs r (fst (step s e)) = reqs r s.
@@ -91,39 +91,3 @@ Proof. intros HI Ht Hc. destruct e; cbn in Ht; cbn [step].
   - exfalso. apply (Hc q). reflexivity.
   - reflexivity.
   - unfold reqs. rewrite respond_out. reflexivity. Qed.
-
-(* ---------------------------------------------------------------- the TypeError of Pipe._add_event needs a refusing transport *)
-Lemma send_message_in who r mt code tok maxre s : incoming_requests (fst (send_message who r mt code tok maxre s)) = incoming_requests s.
-Proof. unfold send_message, next_message_id, send_initially. cbn [m_mtype m_remote].
-  destruct ((resolve_mtype mt =? 0) && in_backlogs r _).
-  - destruct (aget r _); [destruct (has_exchange r _)|]; reflexivity.
-  - destruct (resolve_mtype mt =? 0); cbn [fst]; [|reflexivity].
-    unfold add_exchange, random_uniform, schedule_retransmit, upd_ex, upd_bl. destruct (in_backlogs _ _); destruct (rand _); reflexivity. Qed.
-
-Theorem respond_no_typeerror_accepting s j k last maxre : ~ In (Crash TypeError) (snd (step s (Respond j k last maxre))) \/
-  exists e, e <> TypeError /\ In (Crash e) (snd (step s (Respond j k last maxre))).
-Proof. cbn [step]. unfold respond. destruct (find (fun v => v_k v =? k) (incoming_requests s)) as [v|] eqn:Ef; [|left; intros []].
-  pose proof (send_message_in (Resp j k) (v_remote v) (if v_mtype v =? 1 then 7 else 8) 69 (v_tok v) maxre s) as Hin.
-  assert (Ha : alive k s = true).
-  { unfold alive. apply existsb_exists. exists v. apply find_some in Ef. exact Ef. }
-  destruct (send_message _ _ _ _ _ _ s) as [s1 o1] eqn:Es. cbn [fst] in Hin.
-  assert (Ha1 : alive k s1 = true) by (unfold alive in *; rewrite Hin; exact Ha). rewrite Ha1.
-  assert (Ho : ~ In (Crash TypeError) o1 \/ exists e, e <> TypeError /\ In (Crash e) o1).
-  { assert (o1 = snd (send_message (Resp j k) (v_remote v) (if v_mtype v =? 1 then 7 else 8) 69 (v_tok v) maxre s)) by (rewrite Es; reflexivity). subst o1.
-    unfold send_message, next_message_id, send_initially. cbn [m_mtype m_remote].
-    destruct ((resolve_mtype _ =? 0) && in_backlogs _ _).
-    - destruct (aget _ _); [destruct (has_exchange _ _)|]; cbn [snd].
-      + left. intros [H|[]]. discriminate.
-      + right. exists AssertionError. split; [discriminate|left; reflexivity].
-      + left. intros [].
-    - left. cbn [snd]. intros [H|[H|[]]]; discriminate. }
-  destruct last; cbn [snd]; [|exact Ho].
-  unfold stop_responder. rewrite Ha1. cbn [snd]. destruct Ho as [Ho|(e & He & Hi)].
-  - left. intros H. apply in_app_or in H. destruct H as [H|[H|[]]]; [exact (Ho H)|discriminate].
-  - right. exists e. split; [exact He|apply in_or_app; left; exact Hi]. Qed.
-
-Theorem respond_never_raises_accepting s j k last maxre x : Inv s -> ~ In (Crash x) (snd (step s (Respond j k last maxre))).
-Proof. intros HI H. destruct (step_trans s (Respond j k last maxre) HI) as (_ & _ & N).
-  destruct (respond_no_typeerror_accepting s j k last maxre) as [Hn|(e & He & Hi)].
-  - destruct x; [exact (nocrash_in _ AssertionError N ltac:(discriminate) H)|exact (nocrash_in _ KeyError N ltac:(discriminate) H)|exact (Hn H)].
-  - exact (nocrash_in _ e N He Hi). Qed.
